@@ -94,6 +94,87 @@ func runC16(c *Ctx) {
 	}
 	c.Floor("handwritten-decoders", nHand, 9)
 	c16record(c, m)
+	// re-encoding a decoded value keeps every unknown tag (C15 clause 8, re-derived
+	// here for the round-trip clause): Tags.Set/Len/Each/AppendEach and the tag readers
+	c15Tags(c, m)
+	c16arrayConversions(c, m, root)
+}
+
+// c16arrayConversions: a slice-to-array (or array pointer) conversion panics
+// when the slice is shorter than the array; Reader.Span returns nil on short
+// input.  In both kbin copies and in pkg/kmsg such a conversion must be
+// dominated by a length test of its operand.
+func c16arrayConversions(c *Ctx, m, root *Module) {
+	rule := "no-unchecked-slice-to-array"
+	n := 0
+	check := func(mm *Module, pkgs ...string) {
+		if mm == nil {
+			return
+		}
+		for _, pk := range pkgs {
+			for _, f := range mm.FuncsIn(pk) {
+				info := f.Info()
+				ast.Inspect(f.Decl.Body, func(x ast.Node) bool {
+					call, ok := x.(*ast.CallExpr)
+					if !ok || len(call.Args) != 1 {
+						return true
+					}
+					tv, ok := info.Types[call.Fun]
+					if !ok || !tv.IsType() {
+						return true
+					}
+					var arr *types.Array
+					switch t := tv.Type.Underlying().(type) {
+					case *types.Array:
+						arr = t
+					case *types.Pointer:
+						arr, _ = t.Elem().Underlying().(*types.Array)
+					}
+					if arr == nil {
+						return true
+					}
+					at := info.Types[call.Args[0]].Type
+					if at == nil {
+						return true
+					}
+					if _, isSlice := at.Underlying().(*types.Slice); !isSlice {
+						return true
+					}
+					n++
+					// a dominating fact len(arg) >= N (or !(len(arg) < N))
+					g := f.GraphFor(call)
+					l, okl := g.LocOf(call)
+					if !okl {
+						if st := enclosingStmt(f.Decl.Body, call); st != nil {
+							l, okl = g.LocOf(st)
+						}
+					}
+					arg := nosp(exprStr(call.Args[0]))
+					proven := false
+					if okl {
+						for _, ft := range g.FactsAt(l) {
+							be, isB := unparen(ft.Cond).(*ast.BinaryExpr)
+							if !isB || nosp(exprStr(be.X)) != "len("+arg+")" {
+								continue
+							}
+							v, isC := constInt(info, be.Y)
+							if !isC {
+								continue
+							}
+							if (be.Op == token.GEQ && ft.Val && v >= arr.Len()) || (be.Op == token.LSS && !ft.Val && v >= arr.Len()) || (be.Op == token.EQL && ft.Val && v == arr.Len()) {
+								proven = true
+							}
+						}
+					}
+					c.Check(proven, rule, f.Key+": "+exprStr(call), call.Pos(), mm, "operand length checked", "a slice is converted to an array of "+fmt.Sprint(arr.Len())+" elements without a dominating length test (Span returns nil on short input): a truncated message panics the decoder instead of returning an error")
+					return true
+				})
+			}
+		}
+	}
+	check(m, "kmsg", "kbin")
+	check(root, "kbin")
+	c.Set("slice_to_array_conversions", n)
 }
 
 func c16decoder(c *Ctx, m *Module, f *Func, nMake, nIdx, nSrc *int) {
